@@ -344,6 +344,14 @@ func (w *World) chooseAndRun(acts []Action) {
 	acts[i].Do()
 }
 
+// tick moves the clock by a tiny, step-specific amount after every decision, so that two goroutines
+// released by different steps never start their (equal-length) polling sleeps at the same fake instant:
+// timers that fall due at exactly the same instant fire in an order the runtime does not define.
+func (w *World) tick() {
+	synctest.Wait()
+	time.Sleep(time.Duration(1009+(w.step*7919)%4001) * time.Nanosecond)
+}
+
 // Run is the scheduler loop (bubble root goroutine).
 func (w *World) Run() {
 	cfg := w.cfg
@@ -358,6 +366,7 @@ func (w *World) Run() {
 		}
 		acts := w.enabled()
 		w.chooseAndRun(acts)
+		w.tick()
 	}
 	synctest.Wait()
 	w.quiesce()
@@ -409,6 +418,7 @@ func (w *World) quiesce() {
 		}
 		w.jl(&journal.Ev{K: journal.KStep, Vb: -1, ID: "q|" + acts[picked].ID, I: int64(picked), U: uint64(len(acts))})
 		acts[picked].Do()
+		w.tick()
 	}
 	synctest.Wait()
 	w.scn.AfterQuiesce(w)
